@@ -109,13 +109,13 @@ package fpgo
 //@   ensures inline: s.OnNext != nil && obOn == nil && subOn == nil ==> tr_len == old(tr_len)+2 && tr_kind[old(tr_len)] == 1 && tr_fn[old(tr_len)] == monadIOSelf.effect && tr_kind[old(tr_len)+1] == 1 && tr_fn[old(tr_len)+1] == s.OnNext && tr_arg[old(tr_len)+1] == tr_res[old(tr_len)]
 //@   ensures inline-then-post: s.OnNext != nil && obOn == nil && subOn != nil ==> tr_len == old(tr_len)+2 && tr_kind[old(tr_len)] == 1 && tr_fn[old(tr_len)] == monadIOSelf.effect && tr_kind[old(tr_len)+1] == 5 && tr_obj[old(tr_len)+1] == subOn.ch
 //@   ensures posted: s.OnNext != nil && obOn != nil ==> tr_len == old(tr_len)+1 && tr_kind[old(tr_len)] == 5 && tr_obj[old(tr_len)] == obOn.ch
-//@ func (MonadIODef).doSubscribe lit doSub
+//@ func (MonadIODef).doSubscribe lit doSub@0
 //@   prop C11
 //@   opt callbacks=effectful
 //@   opt effects=trace
 //@   requires s != nil && s.OnNext != nil
 //@   ensures deliver: tr_len == old(tr_len)+1 && tr_kind[old(tr_len)] == 1 && tr_fn[old(tr_len)] == s.OnNext && tr_arg[old(tr_len)] == result
-//@ func (MonadIODef).doSubscribe lit doOb
+//@ func (MonadIODef).doSubscribe lit doOb@1
 //@   prop C11
 //@   opt callbacks=effectful
 //@   opt effects=trace
@@ -277,7 +277,7 @@ package fpgo
 //@   invariant mono: forall(k, 0, _i, cnt[k] + ite(subscribers[k].OnNext != nil, 1, 0) <= cnt[_i])
 //@   invariant delivered: forall(k, 0, _i, subscribers[k].OnNext != nil ==> (tr_kind[old(tr_len)+cnt[k]] == 1 && tr_fn[old(tr_len)+cnt[k]] == subscribers[k].OnNext && tr_arg[old(tr_len)+cnt[k]] == result) || tr_kind[old(tr_len)+cnt[k]] == 5)
 // the delivering closure (it may run later, on the handler): one call of this subscription's OnNext with the published value
-//@ func (PublisherDef).Publish lit doSub
+//@ func (PublisherDef).Publish lit doSub@1
 //@   prop C10
 //@   opt callbacks=effectful
 //@   opt effects=trace
